@@ -350,9 +350,13 @@ class CircuitCompositeOperation(ICircuitCompositeOperation):
             # An empty composite-operation has no operations to refer to, it stands for the moment its own relation defines
             while len(reference_nodes) == 1 and isinstance(reference_nodes[0], CircuitCompositeOperation) and len(reference_nodes[0].decomposed_operations()) == 0:
                 empty_relation_link: IRelationLink = reference_nodes[0].relation_link
-                if relation_type == RelationType.JOINED_END or not empty_relation_link.has_reference:
+                if not empty_relation_link.has_reference:
                     break
-                if empty_relation_link.relation_type != RelationType.JOINED_START:
+                if relation_type == RelationType.JOINED_END:
+                    # Ends at the (zero-length) moment of the empty composite, expressible unless that is a start moment
+                    if empty_relation_link.relation_type == RelationType.JOINED_START:
+                        break
+                elif empty_relation_link.relation_type != RelationType.JOINED_START:
                     relation_type = RelationType.FOLLOWED_BY
                 reference_nodes = list(empty_relation_link._reference_nodes) if isinstance(empty_relation_link, MultiRelationLink) else [empty_relation_link.reference_node]
             transferred_nodes: List[ICircuitOperation] = []
